@@ -33,7 +33,14 @@ def getVerilogModuleName(obj:Logic, noInstanceNumber=False):
 
     '''
     if (has_method(obj, 'structureName')):
-        return obj.structureName()
+        # all instances with the same structure name share the module emitted for the first
+        # of them, which names its nets after its ports. This is only right for instances
+        # with the same port topology: an instance with two ports on one wire gets a
+        # module of its own
+        portWires = [id(p.wire) for p in obj.inPorts + obj.outPorts + obj.inOutPorts]
+        if (noInstanceNumber or len(set(portWires)) == len(portWires)):
+            return obj.structureName()
+        return obj.structureName() + '_' + hex(id(obj))[2:]
     
     str = type(obj).__name__  
     if (not(noInstanceNumber)):
